@@ -41,7 +41,7 @@ class Gen:
         c = r.random()
         if issued and c < 0.05:
             base = r.choice(issued)
-            return r.choice([base + ' ', ' ' + base, base + '\n', base.swapcase(), base + ',x', 'x,' + base])
+            return r.choice([base + ' ', ' ' + base, base + '\n', base.swapcase(), base + ',x', 'x,' + base, base + '0', base[:-1] or 'S', base + base])
         if c < 0.065:
             return BLANK
         if c < 0.1:
@@ -70,8 +70,8 @@ class Gen:
             return B.timing_md(media_time=r.choice(DUR))
         if c < 0.9:
             return B.timing_md(payload=False)
-        return B.timing_md(duration=r.choice(DUR), started='2021-03-04T10:%02d:00' % r.randrange(60),
-                           ended='2021-03-04T11:%02d:30' % r.randrange(60))
+        return B.timing_md(duration=r.choice(DUR), started='2021-03-04T10:%02d:00' % r.randrange(60) + r.choice(['', '', '.5', 'Z', '+01:00']),
+                           ended=('2021-03-04T11:%02d:30' % r.randrange(60)).replace('T', r.choice(['T', 'T', ' '])) + r.choice(['', '', '.125']))
 
     def new_item(self, iid=None):
         r = self.rng
